@@ -9,6 +9,7 @@ package vm
 
 import (
 	"bytes"
+	"crypto/sha256"
 	"encoding/hex"
 	"encoding/json"
 	"fmt"
@@ -1185,6 +1186,11 @@ func runProgram(rs *wres, code []byte, k int) {
 	idx := map[string]int{}
 	for i := 0; i < k; i++ {
 		o := runOnce(code)
+		if len(o) > 8192 {
+			// long outcomes (large serializations): keep the head, compare by digest
+			d := sha256.Sum256([]byte(o))
+			o = fmt.Sprintf("%s…(%d chars, sha256 %x)", o[:2048], len(o), d)
+		}
 		if j, ok := idx[o]; ok {
 			rs.Counts[j]++
 			continue
